@@ -71,7 +71,7 @@ def _src_of(kind, obj, line):
     return 'template'
 
 
-def extract(unit, cfg):
+def extract(unit, cfg, auto=None, nohint=None):
     os.makedirs(WORK, exist_ok=True)
     out = os.path.join(WORK, unit + '.rs')
     logp = os.path.join(WORK, unit + '.extract.json')
@@ -79,7 +79,10 @@ def extract(unit, cfg):
         if os.path.exists(p):
             os.remove(p)
     cmd = [EXTRACT_BIN, REPO, os.path.join(ROOT, cfg['template']), os.path.join(ROOT, 'shims'), out, logp]
-    rc, so, se, dt = run(cmd, cwd=ROOT)
+    env = dict(os.environ)
+    env['VX_AUTO'] = ';'.join(auto or [])
+    env['VX_NOHINT'] = ';'.join(nohint or [])
+    rc, so, se, dt = run(cmd, cwd=ROOT, env=env)
     log = json.load(open(logp)) if os.path.exists(logp) else {'status': 'undecided', 'reason': 'extractor crashed: ' + se[-400:]}
     if rc != 0 and log.get('status') == 'ok':
         log['status'] = 'undecided'
@@ -188,6 +191,29 @@ def classify(r, log, unit):
     return failures, undecided, canary, rl
 
 
+MISSING_RX = [
+    re.compile(r"no (?:method|associated function or constant|function or associated item) named `(\w+)` found for (?:struct|enum|reference|union) `([^`]+)`"),
+    re.compile(r"cannot find function `(\w+)` in this scope"),
+]
+
+
+def missing_helpers(undecided, log):
+    out = []
+    for u in undecided:
+        for rx in MISSING_RX:
+            m = rx.search(u)
+            if m:
+                name = m.group(1)
+                ty = m.group(2) if m.lastindex and m.lastindex >= 2 else None
+                if ty:
+                    ty = re.sub(r"^&(?:'\w+ )?(?:mut )?", '', ty).strip()
+                    ty = re.sub(r'<.*$', '', ty)
+                item = '%s::%s' % (ty, name) if ty else name
+                if item not in out:
+                    out.append(item)
+    return out
+
+
 def obligation_id(f):
     detail = f['text'] or ''
     if f['kind'] == 'precondition' and f.get('failed_clause'):
@@ -234,6 +260,63 @@ def run_unit(unit, cfg, tier='quick', seed=0):
     res['cmds'].append(r['cmd'])
     failures, undecided, canary, rl = classify(r, log, unit)
     attempts = 1
+    # adapted mode (DESIGN 4.2): the real code calls helpers that have no slot (e.g. a refactoring
+    # moved code into a new function). Extract them with their real signature and no contract and
+    # try again; obligations that fail in adapted mode are reported only when replay confirms them.
+    auto = []
+    for _round in range(3):
+        missing = missing_helpers(undecided, log)
+        missing = [m for m in missing if m not in auto]
+        if not missing:
+            break
+        auto += missing
+        out, log2, xcmd2, _ = extract(unit, cfg, auto)
+        res['cmds'].append('VX_AUTO=%s %s' % (';'.join(auto), xcmd2))
+        if log2.get('status') != 'ok':
+            res['adapt_error'] = log2.get('reason')
+            break
+        log = log2
+        with open(out, 'a') as fh:
+            fh.write(CANARY)
+        res['log'] = log
+        r = verus_once(out, seed=seed if seed else None)
+        res['cmds'].append(r['cmd'])
+        failures, undecided, canary, rl = classify(r, log, unit)
+        attempts += 1
+    # still in adapted mode: compile errors on hint lines of a slot whose body changed shape -> drop that slot's hints
+    nohint = []
+    if auto and undecided:
+        regions = _region_map(log)
+        for u in undecided:
+            m = re.search(r'at line (\d+)', u)
+            if m:
+                k, o = _find(regions, int(m.group(1)))
+                if k == 'slot-body' and o['name'] not in nohint and o.get('n_hints', 0) > 0:
+                    nohint.append(o['name'])
+        if nohint:
+            out, log2, xcmd2, _ = extract(unit, cfg, auto, nohint)
+            res['cmds'].append('VX_AUTO=%s VX_NOHINT=%s %s' % (';'.join(auto), ';'.join(nohint), xcmd2))
+            if log2.get('status') == 'ok':
+                log = log2
+                with open(out, 'a') as fh:
+                    fh.write(CANARY)
+                res['log'] = log
+                r = verus_once(out, seed=seed if seed else None)
+                res['cmds'].append(r['cmd'])
+                failures, undecided, canary, rl = classify(r, log, unit)
+                attempts += 1
+    res['adapted'] = auto
+    res['hints_dropped'] = nohint
+    if auto:
+        res['slots'] = []
+        for s in log['slots']:
+            counts = {}
+            for rw in s['rewrites']:
+                counts[rw['rule']] = counts.get(rw['rule'], 0) + 1
+            res['slots'].append({'name': s['name'], 'props': s['props'], 'file': s['file'], 'origin': s['origin'],
+                                 'lines': [s['src_line_start'], s['src_line_end']], 'sha256': sha256(s['item_text']),
+                                 'rewrites': counts, 'hints': s['n_hints'], 'loop_contracts': s['n_loops'],
+                                 'closure_contracts': s['n_closures'], 'substs': s['n_substs'], 'auto': s.get('auto', False)})
     if (failures or rl) and not undecided:
         # retry protocol (DESIGN 4.2): an obligation is reported only if it fails in every configuration
         persistent = {obligation_id(f): f for f in failures}
@@ -310,6 +393,9 @@ def run_unit(unit, cfg, tier='quick', seed=0):
             res['obligations'].append({'id': '%s::lemma::%s' % (unit, x['function'].split('::')[-1]), 'slot': None, 'props': unit_props,
                                        'status': 'discharged' if (x.get('success') and res['status'] == 'ok') else 'undecided', 'kind': 'lemma', 'src': cfg['template'], 'unit': unit,
                                        'time_ms': x.get('time-micros', 0) / 1000.0})
+    if res.get('adapted'):
+        for o in res['obligations']:
+            o['adapted'] = True
     res['attempts'] = attempts
     res['wall_s'] = time.time() - t0
     res['verus_version'] = (j.get('verus') or {}).get('version') if j else None
